@@ -898,7 +898,8 @@ class Evaluator:
                 return self._as_iter(args[0])
         a0 = self.deref_val(args[0]) if args and isinstance(args[0], Ref) and args[0].key[0] == "local" else (args[0] if args else None)
         if isinstance(a0, tuple) and a0 and args and isinstance(args[0], Ref) and args[0].key[0] == "local" and not (len(a0) == 3 and a0[0] in ("rangei", "const")) \
-                and short.split("::")[-1] in ("copy_within", "swap", "fill", "copy_from_slice", "index_mut", "iter_mut", "split_at_mut", "chunks_mut", "chunks_exact_mut", "reverse"):
+                and (short.startswith("core::slice::<impl [T]>::") or short.startswith("core::array::")) \
+                and short.split("::")[-1] in ("copy_within", "swap", "fill", "copy_from_slice", "iter_mut", "split_at_mut", "chunks_mut", "chunks_exact_mut", "reverse"):
             # an array value that is about to be mutated in place: give it a buffer and keep that in the local
             a0 = BufView(list(a0))
             r_ = args[0]
